@@ -5,6 +5,7 @@ import JanetModel.Unmarsh.ImageWf
 import JanetModel.PegVerify.Sound
 import JanetModel.Unmarsh.BytesSound
 import JanetModel.Unmarsh.BytesMono
+import JanetModel.Unmarsh.BytesWf
 import JanetModel.Unmarsh.NanBoxSound
 import JanetModel.Unmarsh.EnvValidSound
 namespace JanetModel.Props.C10
@@ -196,6 +197,59 @@ theorem witness_uncounted_env_recursion :
         (JanetModel.Unmarsh.Bytes.fuelBound BytesExamples.envUncounted) with | .err .stack => true | _ => false) = true ∧
     (match JanetModel.Unmarsh.Bytes.unmarshal (BytesExamples.mkInc BytesExamples.goodIncs) (BytesExamples.nestedImage 2)
         (JanetModel.Unmarsh.Bytes.fuelBound BytesExamples.envUncounted) with | .ok (.func _) c => c.pos == 35 | _ => false) = true := by decide +kernel
+
+/-! ### accepted bytes ⇒ well-formed function objects (link byte-level model → `function_image_wf`)
+
+`hF`, `hE`: the tests `def->environments_length != len` (LB_FUNCTION) and `environments[i] < -1` (`unmarshal_one_def`) are
+present — REGENERATED through `Gen/ImageChecks` into `BytesCfg.cfg` (obligation `BytesObligations.fn_checks_on`). -/
+open JanetModel.Unmarsh.Bytes in
+/-- for EVERY byte array and fuel: after an accepted `unmarshal`, every function object whose `def` is set points to a
+    completed funcdef, was allocated with exactly `def->environments_length` environment slots (`fnEnvs`), and
+    `def->environments` has that many entries, each ≥ -1: (`len`, `environments_length`, `environments`) pass
+    `acceptFunction K` of Unmarsh/Image.lean for every `K`, so `function_image_wf_of_all_checks` applies to it -/
+theorem unmarshal_functions_wf_of_checks (C : Cfg) (hF : C.fnEnvCountChecked = true) (hE : C.defEnvIndexChecked = true)
+    (b : Array Nat) (fuel : Nat) :
+    match unmarshal C b fuel with
+    | .ok _ c => ∀ (id di : Nat), c.st.funcs[id]? = some (some di) →
+        ∃ info len, c.st.defs[di]? = some info ∧ info.done = true ∧ c.st.fnEnvs[id]? = some len ∧
+          info.envs.length = info.envLen ∧
+          (∀ K : JanetModel.Unmarsh.Checks, JanetModel.Unmarsh.acceptFunction K len info.envLen info.envs = true) ∧
+          len = info.envLen ∧ ∀ e ∈ info.envs, -1 ≤ e
+    | _ => True := unmarshal_functions_wf_generic C hF hE b fuel
+
+open JanetModel.Unmarsh.Bytes in
+/-- the FUNCTION case itself, at any nesting level (`f` levels of fuel below, depth counter `d`), from any state that
+    satisfies the invariant `Inv` (`fns_pres`: every state the model reaches does): when `case LB_FUNCTION` accepts, the
+    value IS a function object with its `def` set, and that object is well formed -/
+theorem function_case_wf_of_checks (C : Cfg) (hF : C.fnEnvCountChecked = true) (hE : C.defEnvIndexChecked = true)
+    (b : Array Nat) (f d : Nat) (c : Cur) (hI : Inv c.st) :
+    match functionBody C b (fns C b f) d c with
+    | .ok v c' => ∃ id di info len, v = .func id ∧ c'.st.funcs[id]? = some (some di) ∧ c'.st.defs[di]? = some info ∧
+        info.done = true ∧ c'.st.fnEnvs[id]? = some len ∧ info.envs.length = info.envLen ∧
+        (∀ K : JanetModel.Unmarsh.Checks, JanetModel.Unmarsh.acceptFunction K len info.envLen info.envs = true) ∧
+        len = info.envLen ∧ ∀ e ∈ info.envs, -1 ≤ e
+    | _ => True := function_case_wf_generic C hF hE b f d c hI
+
+/-- non-vacuity: the hypotheses hold of a concrete configuration, and it accepts an image of three nested functions
+    (one environment slot each, `environments = [-1]`) -/
+example : (BytesExamples.mkInc BytesExamples.goodIncs).fnEnvCountChecked = true ∧
+    (BytesExamples.mkInc BytesExamples.goodIncs).defEnvIndexChecked = true ∧
+    (match JanetModel.Unmarsh.Bytes.unmarshal (BytesExamples.mkInc BytesExamples.goodIncs) (BytesExamples.nestedImage 2) 12 with
+      | .ok (.func 0) c => c.st.funcs == #[some 0, some 0, some 0] && c.st.fnEnvs == #[1, 1, 1] &&
+          (c.st.defs.toList.map fun i => (i.done, i.envLen, i.envs)) == [(true, 1, [-1])]
+      | _ => false) = true := by decide +kernel
+
+/-- the count test is needed: a source without `def->environments_length != len` accepts `d7 01 <def without environments>
+    <one environment>` — a function allocated with 1 environment slot whose def says 0 (DESIGN §4 item 10 at the byte level);
+    with the test the same bytes are rejected -/
+theorem witness_env_count_unchecked_bytes :
+    (match JanetModel.Unmarsh.Bytes.unmarshal { BytesExamples.mkInc BytesExamples.goodIncs with fnEnvCountChecked := false }
+        #[215, 1, 0, 0, 0, 0, 0, 0, 1, 0, 0, 0, 0, 0, 1, 201] 12 with
+      | .ok (.func 0) c => c.st.funcs == #[some 0] && c.st.fnEnvs == #[1] && (c.st.defs.toList.map fun i => i.envLen) == [0]
+      | _ => false) = true ∧
+    (match JanetModel.Unmarsh.Bytes.unmarshal (BytesExamples.mkInc BytesExamples.goodIncs)
+        #[215, 1, 0, 0, 0, 0, 0, 0, 1, 0, 0, 0, 0, 0, 1, 201] 12 with
+      | .err .fnEnvCount => true | _ => false) = true := by decide +kernel
 
 /-! ### reals are re-boxed: a NaN payload cannot forge a pointer
 
